@@ -2,6 +2,7 @@
 alignment."""
 
 import glob
+import io
 import os
 
 from hypothesis import strategies as hs
@@ -177,6 +178,90 @@ def judge_file(data, st, case, quick_blocks=None):
                              dict(case, header=j, blank=k))
                 break
 
+    # 1b'. other readers in the same process: one that was abandoned after
+    #      its first record, and one advanced in lockstep with ours
+    other = (b'#diffx: encoding=utf-8, version=1.0\n#.preamble: length=6\n'
+             b'hello\n#.change:\n#..preamble: length=3\nhi\n#..file:\n'
+             b'#...meta: format=json, length=9\n{"a": 1}\n#...diff: length=3\nab\n')
+    ns_ = sut.load()
+
+    try:
+        it = iter(ns_.DiffXReader(io.BytesIO(other)))
+        next(it)
+        next(it)
+    except Exception:
+        pass
+
+    recs, e = sut.read_records(data)
+    runs += 1
+
+    if e is not None or not same(recs, base):
+        st.violation('records-depend-on-another-reader',
+                     'after another reader was abandoned part-way: %r' % e,
+                     dict(case, other_reader='abandoned'))
+
+    mine = iter(ns_.DiffXReader(io.BytesIO(data)))
+    theirs = iter(ns_.DiffXReader(io.BytesIO(other)))
+    got = []
+    e = None
+
+    try:
+        while True:
+            try:
+                got.append(next(mine))
+            except StopIteration:
+                break
+
+            try:
+                next(theirs)
+            except StopIteration:
+                pass
+            except Exception as exc2:
+                raise sut.HarnessError('the other file is not readable: %r'
+                                       % exc2)
+    except sut.HarnessError:
+        raise
+    except Exception as exc:
+        e = exc
+
+    runs += 1
+
+    if e is not None or not same(got, base):
+        st.violation('records-depend-on-another-reader',
+                     'read in lockstep with another reader: %r' % e,
+                     dict(case, other_reader='interleaved'))
+
+    # 1b''. whitespace-only lines and empty lines with the other newline
+    #       style before a header: a reader may refuse them, but if it
+    #       accepts them the records must not change
+    for j, rec in enumerate(exp):
+        if j == 0:
+            continue
+
+        hstart = rec['span'][0]
+
+        for filler in (b'  \n', b'\t\n', b' \r\n', b'\r\n', b'\n',
+                       b'\n  \n\n', b'\r\n\n'):
+            blob = data[:hstart] + filler + data[hstart:]
+            recs, e = sut.read_records(blob)
+            runs += 1
+
+            if e is not None:
+                if not isinstance(e, ns_.DiffXParseError):
+                    st.violation('blank-line-wrong-exception:%s'
+                                 % type(e).__name__,
+                                 '%r before header %d: %r' % (filler, j, e),
+                                 dict(case, header=j, filler=filler))
+
+                continue
+
+            if not same(recs, base):
+                st.violation('records-depend-on-blank-lines',
+                             '%r before header %d (%s)'
+                             % (filler, j, rec['section']),
+                             dict(case, header=j, filler=filler))
+                break
+
     # 1c. other kinds of stream a caller may hand over: buffered readers
     #     with small buffers (they offer peek()), a real file, and a stream
     #     already positioned past some leading bytes
@@ -268,6 +353,13 @@ def run_case(case, st):
             return
     else:
         data = case['data']
+
+    if 'filler' in case or 'other_reader' in case:
+        sub = {k: v for k, v in case.items()
+               if k not in ('filler', 'other_reader', 'header')}
+        judge_file(data, st, sub)
+        st.case(case, nontrivial=True)
+        return
 
     if 'header' in case or 'block' in case or 'blank' in case or \
             'stream' in case:
